@@ -84,6 +84,7 @@ pub struct W {
     pub event_authority: Pubkey,
 }
 
+thread_local! { static SHORT_ONLY: std::cell::Cell<u8> = const { std::cell::Cell::new(0) }; }
 thread_local! { static LONG_PATH: std::cell::RefCell<Vec<MarketKeys>> = const { std::cell::RefCell::new(Vec::new()) }; }
 
 pub const KEEPER_ROLES: [&str; 5] = ["MARKET_KEEPER", "ORDER_KEEPER", "ORACLE_CONTROLLER", "PRICE_KEEPER", "FEATURE_KEEPER"];
@@ -243,18 +244,31 @@ impl W {
         for (o, mint) in [(deposit, m.market_token), (deposit, m.long), (deposit, m.short), (owner, m.market_token)] {
             self.ensure_ata(db, &o, &mint);
         }
-        let accounts = gmsol_store::accounts::CreateDeposit {
+        let mut accounts = gmsol_store::accounts::CreateDeposit {
             owner, receiver: owner, store: self.store, market: m.market, deposit, market_token: m.market_token,
             initial_long_token: Some(m.long), initial_short_token: Some(m.short),
             market_token_escrow: ata(&deposit, &m.market_token), initial_long_token_escrow: Some(ata(&deposit, &m.long)), initial_short_token_escrow: Some(ata(&deposit, &m.short)),
             market_token_ata: ata(&owner, &m.market_token), initial_long_token_source: Some(ata(&owner, &m.long)), initial_short_token_source: Some(ata(&owner, &m.short)),
             system_program: sys(), token_program: spl_token::ID, associated_token_program: spl_associated_token_account::ID,
         };
+        if SHORT_ONLY.with(|c| c.get()) != 0 {
+            // a deposit without a long side: no long token, escrow or source at all
+            (accounts.initial_long_token, accounts.initial_long_token_escrow, accounts.initial_long_token_source) = (None, None, None);
+        }
         let path = LONG_PATH.with(|p| p.borrow().clone());
         let params = gmsol_store::ops::deposit::CreateDepositParams { execution_lamports: 5_000_000, long_token_swap_length: path.len() as u8, short_token_swap_length: 0, initial_long_token_amount: long_amount, initial_short_token_amount: short_amount, min_market_token_amount: min_out, should_unwrap_native_token: false };
         let mut i = ix(self.pid, accounts, gmsol_store::instruction::CreateDeposit { nonce, params });
         i.accounts.extend(path.iter().map(|p| meta(p.market, false, false)));
         process(db, &i, &[signer])
+    }
+
+    /// run `f` with the deposit instructions of this thread built for a deposit without a long side (1) or with the crafted
+    /// close account list (2)
+    pub fn with_short_only<T>(mode: u8, f: impl FnOnce() -> T) -> T {
+        SHORT_ONLY.with(|c| c.set(mode));
+        let r = f();
+        SHORT_ONLY.with(|c| c.set(0));
+        r
     }
 
     /// run `f` with deposits created / executed by this thread carrying `path` as their long-side swap path
@@ -271,13 +285,16 @@ impl W {
 
     pub fn execute_deposit_ix(&self, m: &MarketKeys, owner: Pubkey, nonce: [u8; 32], signer: Pubkey, throw_on_execution_error: bool) -> Instruction {
         let deposit = self.deposit_pda(&owner, &nonce);
-        let accounts = gmsol_store::accounts::ExecuteDeposit {
+        let mut accounts = gmsol_store::accounts::ExecuteDeposit {
             authority: signer, store: self.store, token_map: self.token_map, oracle: self.oracle, market: m.market, deposit, market_token: m.market_token,
             initial_long_token: Some(m.long), initial_short_token: Some(m.short),
             market_token_escrow: ata(&deposit, &m.market_token), initial_long_token_escrow: Some(ata(&deposit, &m.long)), initial_short_token_escrow: Some(ata(&deposit, &m.short)),
             initial_long_token_vault: Some(self.vault(&m.long)), initial_short_token_vault: Some(self.vault(&m.short)),
             token_program: spl_token::ID, system_program: sys(), chainlink_program: None, event_authority: self.event_authority, program: self.pid,
         };
+        if SHORT_ONLY.with(|c| c.get()) != 0 {
+            (accounts.initial_long_token, accounts.initial_long_token_escrow, accounts.initial_long_token_vault) = (None, None, None);
+        }
         let mut i = ix(self.pid, accounts, gmsol_store::instruction::ExecuteDeposit { execution_fee: 5_000, throw_on_execution_error });
         i.accounts.extend(self.feeds_sorted());
         // the swap markets of the long-side path (unique, excluding the current market), writable
@@ -293,12 +310,19 @@ impl W {
 
     pub fn close_deposit(&self, db: &mut Db, m: &MarketKeys, owner: Pubkey, nonce: [u8; 32], signer: Pubkey) -> std::result::Result<(), TxError> {
         let deposit = self.deposit_pda(&owner, &nonce);
-        let accounts = gmsol_store::accounts::CloseDeposit {
+        let mut accounts = gmsol_store::accounts::CloseDeposit {
             executor: signer, store: self.store, store_wallet: self.store_wallet, owner, receiver: owner, market_token: m.market_token, initial_long_token: Some(m.long), initial_short_token: Some(m.short), deposit,
             market_token_escrow: ata(&deposit, &m.market_token), initial_long_token_escrow: Some(ata(&deposit, &m.long)), initial_short_token_escrow: Some(ata(&deposit, &m.short)),
             market_token_ata: ata(&owner, &m.market_token), initial_long_token_ata: Some(ata(&owner, &m.long)), initial_short_token_ata: Some(ata(&owner, &m.short)),
             system_program: sys(), token_program: spl_token::ID, associated_token_program: spl_associated_token_account::ID, event_authority: self.event_authority, program: self.pid,
         };
+        match SHORT_ONLY.with(|c| c.get()) {
+            0 => {}
+            // the plain account list of a deposit without a long side
+            1 => (accounts.initial_long_token, accounts.initial_long_token_escrow, accounts.initial_long_token_ata) = (None, None, None),
+            // a crafted list: the unused long-token slot names the short mint (the mint constraint of an unused side accepts any mint)
+            _ => (accounts.initial_long_token, accounts.initial_long_token_escrow, accounts.initial_long_token_ata) = (Some(m.short), None, None),
+        }
         process(db, &ix(self.pid, accounts, gmsol_store::instruction::CloseDeposit { reason: "mc".into() }), &[signer])
     }
 
